@@ -285,6 +285,19 @@ def impl_ranges_via_network(specs, n):
     return out
 
 
+def impl_rule_literals(spec, aw):
+    """[width, start, width, end] as written into the literals of a rule over this range (None if it cannot be read)"""
+    import re
+    try:
+        txt = RouteMapRule(dest=SimpleId(id=0), addr_range=AddrRange(**spec)).render(aw=aw)
+    except Exception:  # pylint: disable=broad-except
+        return None
+    m = re.search(r"start_addr:\s*(\d+)'h([0-9a-fA-F_]+),\s*end_addr:\s*(\d+)'h([0-9a-fA-F_]+)", txt)
+    if not m:
+        return None
+    return [int(m.group(1)), int(m.group(2).replace("_", ""), 16), int(m.group(3)), int(m.group(4).replace("_", ""), 16)]
+
+
 def range_holds(spec, k, ir, isi):
     """C17 on one accepted construction (`ir`) and its re-indexing to k (`isi`)"""
     st, en, sz, ba, ix = ir["ok"]
@@ -386,13 +399,19 @@ class C17Runner:
         drv.close()
         # re-indexing as the generator does it: element k of an array with several based ranges of different sizes
         # gets [base + k*size, base + (k+1)*size) of each
-        for t in range(60 if tier == "thorough" else 12):
-            n = rng.randint(2, 5)
+        for t in range(60 if tier == "thorough" else 16):
+            n = rng.randint(2, 5) if t % 4 else 1          # one-element arrays are arrays too
             sizes = [rng.choice([0x10, 0x40, 0x100, 0x1000, 0x3000, 7]) for _ in range(rng.randint(2, 3))]
             specs, at = [], rng.choice([0, 0x1000, 0x8000_0000])
             for sz in sizes:
-                specs.append({"base": at, "size": sz})
-                at += n * sz + rng.choice([0, 0x100])
+                sp = {"base": at, "size": sz}
+                style = rng.randrange(4)
+                if style == 1:
+                    sp["idx"] = rng.randint(1, 3)          # an index written on an array's range: element k still takes slot k
+                elif style == 2:
+                    sp.update(start=at + 2 * sz, end=at + 3 * sz)      # written as the window of element 2 of its base
+                specs.append(sp)
+                at += max(n, 4) * sz + rng.choice([0, 0x100])
             rng.shuffle(specs)
             got = impl_ranges_via_network(specs, n)
             if got is None:
@@ -404,6 +423,28 @@ class C17Runner:
                 f = {"claim": "reindex-in-network", "site": json.dumps(specs),
                      "detail": f"elements of a [{n}] array get {got}, expected {want}"}
                 rep.finding(f, {"property": pid, "finding": f, "spec": specs[0], "k": 0, "network_specs": specs, "n": n})
+        # a range without base cannot be the range of an array, not even of a one-element one
+        for n in (1, 1, 2):
+            st = rng.choice([0x1000, 0x8000_0000])
+            got = impl_ranges_via_network([{"start": st, "end": st + 0x100}], n)
+            stats["unbased-array"] += 1
+            if got is not None and not rep.violations:
+                f = {"claim": "unbased-array-accepted", "site": f"array [{n}] with a start/end range",
+                     "detail": f"re-indexing a range without base is an error; the elements got {got}"}
+                rep.finding(f, {"property": pid, "finding": f, "spec": {"start": st, "end": st + 0x100}, "k": 0,
+                                "unbased_array": n})
+        # what is written down for a range: the literals of a rule carry start and end (an end at the very top as 0)
+        for t in range(400 if tier == "thorough" else 60):
+            aw = rng.choice([16, 32, 33, 34, 35, 42, 48, 64, rng.randint(17, 64)])
+            sz = rng.choice([1, 0x40, 0x1000, 1 << rng.randint(0, aw - 1)])
+            st = rng.choice([0, (1 << aw) - sz, rng.randrange(0, (1 << aw) - sz + 1)])
+            lit = impl_rule_literals({"start": st, "end": st + sz}, aw)
+            stats["rendered"] += 1
+            want = [aw, st, aw, (st + sz) % (1 << aw)]
+            if lit != want and not rep.violations:
+                f = {"claim": "range-rendering", "site": f"[{st:#x}, {st + sz:#x}) at address width {aw}",
+                     "detail": f"rule literals carry (width, start, width, end) = {lit}, expected {want}"}
+                rep.finding(f, {"property": pid, "finding": f, "spec": {"start": st, "end": st + sz}, "k": 0, "render_aw": aw})
         if mism and not rep.violations:
             rep.unproven({"correspondence": "Lean mkRange/setIdx and AddrRange disagree"}, {"property": pid, "examples": mism})
         return {"evaluations": stats["evaluated"], "distinct_nontrivial": stats["accepted"],
@@ -417,6 +458,17 @@ class C17Runner:
         ir, isi = impl_range(payload["spec"], payload.get("k"))
         if "ok" in ir and not range_holds(payload["spec"], payload.get("k"), ir, isi):
             rep.finding(payload["finding"], payload)
+        elif payload.get("render_aw"):
+            lit = impl_rule_literals(payload["spec"], payload["render_aw"])
+            aw, st, en = payload["render_aw"], payload["spec"]["start"], payload["spec"]["end"]
+            print("literals:", lit)
+            if lit != [aw, st, aw, en % (1 << aw)]:
+                rep.finding(payload["finding"], payload)
+        elif payload.get("unbased_array"):
+            got = impl_ranges_via_network([payload["spec"]], payload["unbased_array"])
+            print("elements get", got)
+            if got is not None:
+                rep.finding(payload["finding"], payload)
         elif payload.get("network_specs"):
             specs, n = payload["network_specs"], payload["n"]
             got = impl_ranges_via_network(specs, n)
@@ -484,7 +536,7 @@ def expected_range(dims, rng, nm="r"):
     return out
 
 
-def impl_level_via_network(tree, lvl, nm="r", flip=False):
+def impl_level_via_network(tree, lvl, nm="r", flip=False, auto=True):
     """the routers a connection by tree level attaches an endpoint array to, element by element, as
     `Network.create_connections` resolves it (an error if the description is refused)"""
     from floogen.model.network import Network
@@ -502,7 +554,8 @@ def impl_level_via_network(tree, lvl, nm="r", flip=False):
            "protocols": prot,
            "endpoints": [{"name": "ep", "array": [cnt], "addr_range": {"base": 0x1000, "size": 0x100},
                           "mgr_port_protocol": ["axi_in"], "sbr_port_protocol": ["axi_out"]}],
-           "routers": [{"name": nm, "tree": list(tree)}, {"name": nm + "2", "tree": [2]}],
+           "routers": [dict({"name": nm, "tree": list(tree)}, **({} if auto else {"auto_connect": False})),
+                       {"name": nm + "2", "tree": [2]}],
            "connections": [con]}
     try:
         net = Network.model_validate(cfg)
@@ -601,16 +654,17 @@ class C18Runner:
             if max(t) > 3 and tier != "thorough":
                 continue
             for lvl in range(0, len(t) + 1):
-                for flip in (False, True):
-                    ir = impl_level_via_network(t, lvl, "r", flip)
+                for flip, auto in ((False, True), (True, True), (False, False)):
+                    ir = impl_level_via_network(t, lvl, "r", flip, auto)
                     stats["level-via-network"] += 1
                     exp = ["r_" + "_".join(map(str, ix)) for ix in itertools.product(*[range(x) for x in t[:lvl + 1]])]
                     good = ir.get("nodes") == exp if lvl < len(t) else "err" in ir
                     if not good and not rep.violations:
-                        f = {"claim": "selector-result", "site": f"tree{t} lvl {lvl} in a connection" + (" (router first)" if flip else ""),
+                        f = {"claim": "selector-result", "site": f"tree{t} lvl {lvl} in a connection" + (" (router first)" if flip else "") +
+                             ("" if auto else " (auto_connect: false)"),
                              "detail": json.dumps(ir)[:200]}
                         rep.finding(f, {"property": pid, "finding": f, "kind": "tree-network", "dims": t, "sel": "lvl", "arg": lvl,
-                                        "flip": flip, "name": "r"})
+                                        "flip": flip, "auto": auto, "name": "r"})
         if mism and not rep.violations:
             rep.unproven({"correspondence": "Lean selectors and floogen Graph selectors disagree"}, {"property": pid, "examples": mism})
         return {"evaluations": stats["evaluated"], "distinct_nontrivial": stats["returned"],
@@ -623,7 +677,7 @@ class C18Runner:
         nm = payload.get("name", "r")
         if payload["kind"] == "tree-network":
             t, lvl = payload["dims"], payload["arg"]
-            ir = impl_level_via_network(t, lvl, "r", payload.get("flip", False))
+            ir = impl_level_via_network(t, lvl, "r", payload.get("flip", False), payload.get("auto", True))
             print(ir)
             exp = ["r_" + "_".join(map(str, ix)) for ix in itertools.product(*[range(x) for x in t[:lvl + 1]])]
             if not (ir.get("nodes") == exp if lvl < len(t) else "err" in ir):
